@@ -44,6 +44,7 @@ def run(idx: Index, rep: Report, tier: str):
     from ..rules.options import check_option_passthrough
     check_option_passthrough(idx, rep, "K7.option-passthrough", idx.function(f"{VQE}::VQESolver.__init__"), minimum=4)      # deflation_coeff = 0 means no deflation
     # operator_expectation("N" | "Sz" | "S^2") evaluates the built-in operators: they have to be the physical ones
+    check_hcb_symmetry_operators(idx, rep)
     from . import C12
     C12.check_symmetry_operators(idx, rep, "quick")
 
@@ -391,3 +392,37 @@ def check_deflation(idx: Index, rep: Report):
     for verdict, node, why in found:
         rep.decide(verdict == "ok", rule, f, node, text="overlap = |<psi_k|psi>|^2 (all-zero frequency of U_k U^dagger, or conjugating inner product of the two states)",
                    what="the overlap is the squared modulus of the inner product of the deflation state and the evaluated state", reason=why)
+
+
+def check_hcb_symmetry_operators(idx: Index, rep: Report):
+    """operator_expectation("N" | "Sz" | "S^2") under the hard-core-boson encoding (pUCCD): the library's own operator builders are folded into term
+    dictionaries, sent through the folded hard-core-boson chain, and compared with the exact restriction of the same operator to the paired determinants
+    (where N = 2 * number of pairs, Sz = 0 and S^2 = 0)."""
+    import numpy as np
+    from ..consteval import Raised, Undecidable
+    from ..rules import ofmodel as om
+    from ..rules.circuitsem import make_folder
+    from .C03 import boson_matrix, hcb_encode, paired_block
+    rule = "K9.hcb-symmetry-operators"
+    FOP = "tangelo/toolboxes/ansatz_generator/fermionic_operators.py"
+    f = idx.function(f"{VQE}::VQESolver.operator_expectation")
+    for label, fname in (("N", "number_operator"), ("Sz", "spinz_operator"), ("S^2", "spin2_operator")):
+        bad = []
+        for n_mos in (2, 3):
+            g = idx.function(f"{FOP}::{fname}")
+            fo = make_folder(idx, FOP, ctors={"FermionOperator": lambda a, k: om.OrdFermionOp(*a, **k), "normal_ordered": lambda a, k: om.normal_ordered(a[0])})
+            try:
+                op = fo.run_function(g.node, {"n_orbs": n_mos, "up_then_down": False})
+                bos = hcb_encode(idx, dict(op.terms))
+            except Undecidable as e:
+                raise AnalysisError(f"{fname} / hard-core-boson chain not foldable: {e}")
+            except Raised as e:
+                bad.append(f"{n_mos} orbitals: raises {e.exc_type}")
+                continue
+            got = boson_matrix(bos, n_mos)
+            want = paired_block(dict(op.terms), n_mos)
+            if float(np.max(np.abs(got - want))) >= 1e-9:
+                bad.append(f"{n_mos} orbitals: encoded diagonal {np.round(np.real(np.diag(got)), 6).tolist()}, exact values on the paired determinants {np.round(np.real(np.diag(want)), 6).tolist()}")
+        rep.decide(not bad, rule, f, f.node, text=f"operator_expectation('{label}') under the hard-core-boson encoding",
+                   what="the qubit operator measured for N, Sz or S^2 is the restriction of that operator to the paired determinants the encoding represents",
+                   reason="; ".join(bad) + " (the coefficient extraction reads the alpha-alpha and alpha-beta blocks only, as for a spin-restricted Hamiltonian)")
